@@ -1688,6 +1688,13 @@ func resolveIndex(v, index reflect.Value, indexAsStr string) (reflect.Value, err
 			if cache, ok = cachedStructsFieldIndex[typ]; !ok {
 				cache = make(map[string][]int)
 				buildCache(typ, cache, nil)
+				// keep only what reflect's own selector rule agrees with (it also looks through
+				// embedded pointers and rejects ambiguous names); everything else takes the slow path
+				for name, index := range cache {
+					if f, found := typ.FieldByName(name); !found || !sameIndex(f.Index, index) {
+						delete(cache, name)
+					}
+				}
 				cachedStructsFieldIndex[typ] = cache
 			}
 			cachedStructsMutex.Unlock()
@@ -1756,6 +1763,18 @@ func indexArg(index reflect.Value, cap int) (int, error) {
 		return 0, fmt.Errorf("index out of range: %d", x)
 	}
 	return int(x), nil
+}
+
+func sameIndex(a, b []int) bool {
+	if len(a) != len(b) {
+		return false
+	}
+	for i := range a {
+		if a[i] != b[i] {
+			return false
+		}
+	}
+	return true
 }
 
 // fieldByIndex is reflect.Value.FieldByIndex, but a nil embedded pointer on the way is an error
